@@ -7,6 +7,7 @@
    path-resolution oracle on the real code and by diffing full error keys (paths, constraint, value) against the model. *)
 From Coq Require Import List ZArith String Bool.
 From Cerb Require Import Values PyOps Errors Tree Facts SpecFacts FactsOk Pool Validate PathProofs LocProofs DefProofs Current.
+From Cerb Require SpProofs.
 Import ListNotations.
 Open Scope string_scope.
 Open Scope list_scope.
@@ -77,6 +78,22 @@ Theorem C12_code_and_rule_of_one_definition_at_every_depth : forall fuel x errs,
   Forall (fun e => exists d, (e_code e, e_rule e) = errdef current d) (flatten (f_masks current) errs).
 Proof. exact (validate_errors_defined current). Qed.
 Print Assumptions C12_code_and_rule_of_one_definition_at_every_depth.
+
+(* the schema path leads to where the constraint is spelled out: for EVERY validator of a run, at any depth, every error
+   of its list has a schema path that starts with the validator's schema path, continues with allow_unknown crumbs only
+   (unknown fields held against an allow_unknown rules set), and -- when it is not the bare validator path (unknown
+   field, custom errors without a rule) or '__require_all__' -- ends with [field; rule], field being the last element of
+   its document path and rule its own rule.  With C12_error_record (the constraint is the rule's entry in the field's
+   resolved rule set) that is schema-path resolution for a validator's own errors; what stays with the oracle is the
+   resolution of CHILD errors' paths after bubbling has dropped crumbs. *)
+Theorem C12_schema_paths_located : forall fuel x errs,
+  validate_ctx current fuel x = Ok errs ->
+  Forall (fun e => exists field mid, e_dp e = x_dp x ++ [field] /\
+                     Forall (fun k => k = KStr "allow_unknown" \/ k = KStr "__allow_unknown__") mid /\
+                     (e_sp e = SPStr "__require_all__" \/ e_sp e = SP (x_sp x ++ mid) \/
+                      exists r, e_rule e = Some r /\ e_sp e = SP (x_sp x ++ mid ++ [field; KStr r]))) errs.
+Proof. exact (SpProofs.validate_schema_paths_located current). Qed.
+Print Assumptions C12_schema_paths_located.
 
 Example C12_example :
   let cfg := {| c_allow_unknown := VBool false; c_require_all := false; c_ignore_none := false; c_purge_unknown := false;
